@@ -51,6 +51,7 @@ static int run_class(const char* script, const char* trace) {
 }
 
 #ifndef CHANMAP_NO_LL
+#include <boost/test/unit_test.hpp>      // test_servers.hpp / test_radio.cpp use BOOST_ macros (never executed here)
 #include <bluetoe/link_layer.hpp>
 #include "test_radio.hpp"
 #include "test_servers.hpp"
